@@ -136,7 +136,15 @@ func ruleFreeBitNonZero(r *Report) {
 	for _, f := range deepFuncs(fn) {
 		allInstrs(f, func(ins ssa.Instruction) {
 			c, ok := ins.(*ssa.Call)
-			if !ok || !calleeIs(&c.Call, "math/bits.TrailingZeros64") {
+			if ok && !calleeIs(&c.Call, "math/bits.TrailingZeros64") {
+				// the position of a *zero* bit is TrailingZeros64(^word) (or MinZero); any other bit
+				// arithmetic (Len64: one past the highest set bit) names a position nobody tested
+				if sc := c.Call.StaticCallee(); sc != nil && sc.Pkg != nil && sc.Pkg.Pkg.Path() == "math/bits" {
+					bad = r.P.InstrPos(ins) + " (bits." + sc.Name() + " does not find a zero bit)"
+				}
+				return
+			}
+			if !ok {
 				return
 			}
 			n++
